@@ -54,8 +54,13 @@ int skinny64_parallel_ecb_init(Skinny64ParallelECB_t *ecb)
     Skinny64Key_t *ctx;
     if (!ecb)
         return 0;
-    if ((ctx = calloc(1, sizeof(Skinny64Key_t))) == NULL)
+    if ((ctx = calloc(1, sizeof(Skinny64Key_t))) == NULL) {
+        /* Leave the object inert so that cleanup and other calls are safe */
+        ecb->vtable = 0;
+        ecb->ctx = 0;
+        ecb->parallel_size = 8 * SKINNY64_BLOCK_SIZE;
         return 0;
+    }
     ecb->vtable = 0;
     ecb->ctx = ctx;
     ecb->parallel_size = 8 * SKINNY64_BLOCK_SIZE;
